@@ -1,5 +1,6 @@
 import Verif.Facts.CpuCode
 import Verif.Facts.CpuNow
+import Verif.Impl.Run
 /-
   `executeInstruction` over the TRANSLATED handlers: fetch, look the opcode up in the extracted table,
   fault before `c.PC++` when absent, otherwise `c.PC++` and run the translated Go function registered
@@ -38,5 +39,24 @@ theorem codeStep_eq_stepNow (model : CpuModel) : codeStep model = stepNow model 
     simp only [CpuCode.evalS, Impl.handler, bind, StateT.bind, pure, StateT.pure] at e
     simp only [Prog.bind, StateT.bind, bind]
     exact e
+
+/-- `RunExt`'s loop over the translated code: fetch, dispatch to the translated handler, add its cycles unless it halts -/
+def codeRunLoop {σ : Type} (model : CpuModel) (bus : Bus σ) : Nat → Machine σ → Stop × Machine σ
+  | 0, m => (.fuel, m)
+  | n + 1, m =>
+    match (codeStep model m.regs).run bus m.mem with
+    | (.error e, mem') => (.error e, { m with mem := mem' })
+    | (.ok (out, regs'), mem') =>
+      if out.halt then (.halted, { m with regs := regs', mem := mem' })
+      else codeRunLoop model bus n { regs := regs', cycles := m.cycles + out.cycles, mem := mem' }
+
+/-- a run of the translated code is the run of the model the run-level theorems are about -/
+theorem codeRunLoop_eq {σ : Type} (model : CpuModel) (bus : Bus σ) (n : Nat) (m : Machine σ) :
+    codeRunLoop model bus n m = runLoop (opTable model) consts model bus n m := by
+  induction n generalizing m with
+  | zero => rfl
+  | succ n ih =>
+    simp only [codeRunLoop, runLoop, codeStep_eq_stepNow, stepNow, ih]
+    rfl
 
 end Verif.Facts
